@@ -9,7 +9,8 @@ def engines : List (String × (List String → String)) := [
   ("robots", Wpull.Robots.handle),
   ("decomp", Wpull.Decomp.handle),
   ("table", Wpull.Table.handle),
-  ("pool", Wpull.Pool.handle)
+  ("pool", Wpull.Pool.handle),
+  ("url", Wpull.Url.handle)
 ]
 
 def handle (line : String) : String :=
